@@ -192,3 +192,48 @@ _ROUND4 = {
 for _p, (_tech, _text) in _ROUND4.items():
     CLAIMS[_p]["technique"] += _tech
     CLAIMS[_p]["text"] += _text
+
+# Round-5 additions (rules added after the fifth batch of seeded changes and the triage of the agents' side observations).
+_ROUND5 = {
+    "C01": ("; accidental process state (mutable defaults, class-level containers, nested module templates copied shallowly); clock of the TTL caches on the canonical path",
+            " No function on the canonical path keeps state in a mutable default, a class-level container or a shallow copy of a nested module template; every TTL cache built on the canonical path is checked for an injected clock (3 known findings: they expire by time.time)."),
+    "C03": ("; range-safe norm (hypot), exact order-free merge (fsum with its OverflowError handled), cooldown filter on unmerged proposals",
+            " The cooldown filter acts on the proposals before duplicates are merged; the L2 norm is hypot over all components (sum-of-squares underflow is a violation); every fsum on the merge path is under an OverflowError handler (3 defects repaired)."),
+    "C04": ("; must-pass of the on-apply invalidation after every version bump; config-holder agreement with run_turn; walk-and-resize scan of the cache manager",
+            " Every version bump of apply_changes is followed by the on-apply invalidation before it returns; no cache-manager function resizes a container it walks; the apply stage's config holders are compared with run_turn's (2 known findings: ctx.cfg is not read, pinned by a golden log)."),
+    "C05": ("; hit-return provenance (every non-diagnostic field read from the entry); store-version reachability of every key wrapping T2; quality-digest table",
+            " Every non-diagnostic field of the T1 hit return is read out of the entry."),
+    "C06": ("; canonical record construction in the normaliser; own-snapshot request of the boot loader",
+            " Every record the normaliser puts under nodes / edges is built by it in a fixed or sorted field order; the loader asks the picker for the loading agent's own body before the mtime ranking."),
+    "C07": ("; JSON-level leaf comparison in the diff walker; usable-baseline typestate of every apply_delta / compute_delta argument",
+            " A leaf counts as modified on its JSON value (not on == alone); a baseline payload is used only if it came from the one baseline reader and is not None, and that reader accepts only two-part full snapshots with an object body."),
+    "C08": ("; swap-primitive check (no copying mover in atomic_replace); raw-write completion (byte count of every unbuffered write consumed)",
+            " The swap is os.replace itself (no shutil.move / copy fallback) and every write through an unbuffered handle loops on its byte count (1 defect repaired: short writes were swapped in)."),
+    "C09": ("; every-future-joined must-pass and no-cancel rule in run_parallel; per-iteration binding of thunks; shard-decomposability of per-shard truncations; fill order of the shared stage cache",
+            " Every future is joined (no cancel / early shutdown); thunks bind the loop variable per iteration; every truncation the per-shard search performs is re-applied by the merge (1 known finding: clusters_top_m) and writes of thunks into the shared bounded cache are reported (1 known finding)."),
+    "C10": ("; deep-snapshot requirement at capture; unconditional capture write; each picked agent computed once; back-pressure only when drainable",
+            " The capture stores a deep copy, its write neither raises nor skips the append, and the compute loop consumes the pick (one task per picked agent)."),
+    "C11": ("; zero-cap rule (cap tested before the work it limits); cluster-id identity in all three readers; scoped owner never None",
+            " The residual cap is tested before a node is chosen; aux.cluster_id is tested by identity in every reader; under agent / world scope owner_for_query never returns None."),
+    "C12": ("; zero-cap rule for the relaxation budget; same context-free folding (casefold) of label and text; tallies accumulated before they are folded into totals",
+            " relax_cap is tested before an edge is relaxed; label and text are both folded with casefold(); loop tallies folded into reported totals after their loop are accumulated, not assigned."),
+    "C13": ("; sanitize_plan as second untrusted entry point; Speak token budget by identity",
+            " sanitize_plan narrows the plan to a mapping before dict(); the Speak op's max_tokens is compared with None, so 0 is a budget."),
+    "C14": ("; top-level scalar contract; argv protocol of the CLI -> script delegation; guarded parse of the CLI's JSON slice",
+            " Every allowed top-level key the engine converts with int() / float() is stored coerced; the umbrella CLI hands the script's main a program name plus the user's arguments (it parses argv[1:]) and parses the extracted JSON block under a guard."),
+    "C15": ("; count / slot pairing of the dedupe ring",
+            " Every DedupeRing method that changes a reference count moves a slot in or out of the deque with it."),
+    "C16": ("; whole-line-or-error (no unchecked raw write in the appender); gap-aware rotation (delete only when every slot is taken, cascade from below the first free slot, moves keep their source)",
+            " The appender's write cannot be short without raising; rotation deletes path.<backups> only when no slot is free, cascades from below the first free slot and moves generations with cleanup_tmp=False."),
+    "C17": ("; scope of slice-derived bounds (per slice vs per graph worker)",
+            " Bounds derived from per-slice budgets that are applied inside the per-graph worker without being reduced between graphs are reported (2 known findings: t1_pops / t1_iters)."),
+    "C18": ("; clamp provenance of every edge-weight writer of the module (not only observe / tick)",
+            " Every function that writes an edge weight writes a value clamped to graph.update.clamp_min / clamp_max (or literal 0)."),
+    "C19": ("; per-turn ctx values rewritten every turn",
+            " Values run_turn derives from the turn's inputs and parks on ctx are written unconditionally, not only if absent."),
+    "C20": ("; GEL observe / tick declared fail-soft; boot loader runs once on every continuation",
+            " gel observe and tick are guarded like the maintenance passes, and every continuation of the boot loader call - also the swallowed failure - sets the once-flag."),
+}
+for _p, (_tech, _text) in _ROUND5.items():
+    CLAIMS[_p]["technique"] += _tech
+    CLAIMS[_p]["text"] += _text
